@@ -6,6 +6,7 @@ import (
 	"math/rand"
 	"strings"
 	"sync"
+	"time"
 
 	"harness/sx"
 
@@ -99,6 +100,64 @@ func evalSym(calc *calculator.ExpressionCalculator, env sx.SX) sx.SX {
 
 var c19Once sync.Once
 var c19Isolation string
+
+// probeFunctionPurity: every registered function called through an expression Name(a), Name(a, b), Name(a, b, c) ... with
+// variables of every type (doubles and arrays included): the variable values, the compiled program and the function table
+// are what they were, under both managers, and the second evaluation returns what the first returned (clock and random
+// functions excepted)
+func probeFunctionPurity() string {
+	vals := realValues()
+	vals = append(vals, variants.VariantFromDouble(-1.5), variants.VariantFromDouble(2.5), variants.VariantFromFloat(-2.5), variants.VariantFromLong(-3),
+		variants.VariantFromDateTime(time.Date(2021, 3, 4, 5, 6, 7, 0, time.UTC)), variants.VariantFromTimeSpan(90*time.Minute), variants.VariantFromString("-2.5"))
+	names := []string{"a", "b", "c", "d"}
+	for _, safe := range []bool{false, true} {
+		calc := calculator.NewExpressionCalculator()
+		calc.SetVariantOperations(newManager(safe))
+		calc.SetAutoVariables(false)
+		nf := calc.DefaultFunctions().Length()
+		for _, f := range calc.DefaultFunctions().GetAll() {
+			up := strings.ToUpper(f.Name())
+			for arity := 0; arity <= 4; arity++ {
+				text := f.Name() + "(" + strings.Join(names[:arity], ", ") + ")"
+				if err := calc.SetExpression(text); err != nil {
+					continue
+				}
+				prog := sx.Text(renderRPNcalc(calc))
+				for shift := 0; shift < len(vals); shift++ {
+					vars := variables.NewVariableCollection()
+					for i := 0; i < arity; i++ {
+						v := vals[(shift+i*5)%len(vals)]
+						vars.Add(variables.NewVariable(names[i], v.Clone()))
+					}
+					before := snapshotVars(vars)
+					r1, e1 := calc.EvaluateUsingVariables(vars)
+					o1, _ := resSX(r1, e1)
+					if after := snapshotVars(vars); after != before {
+						return fmt.Sprintf("evaluating %s changed the variable values from %s to %s", sx.Quote(text), before, after)
+					}
+					r2, e2 := calc.EvaluateUsingVariables(vars)
+					o2, _ := resSX(r2, e2)
+					if up != "NOW" && up != "TICKS" && up != "RND" && up != "RANDOM" && ((e1 == nil) != (e2 == nil) || (e1 == nil && sx.Text(o1) != sx.Text(o2))) {
+						return fmt.Sprintf("evaluating %s twice with %s gave %s and then %s", sx.Quote(text), before, sx.Text(o1), sx.Text(o2))
+					}
+					if after := snapshotVars(vars); after != before {
+						return fmt.Sprintf("evaluating %s twice changed the variable values from %s to %s", sx.Quote(text), before, after)
+					}
+					if p2 := sx.Text(renderRPNcalc(calc)); p2 != prog {
+						return fmt.Sprintf("evaluating %s changed the compiled program from %s to %s", sx.Quote(text), prog, p2)
+					}
+				}
+			}
+		}
+		if calc.DefaultFunctions().Length() != nf {
+			return "evaluating calls changed the number of registered functions"
+		}
+	}
+	if !variants.Empty.IsNull() {
+		return "evaluating calls changed the package-level constant variants.Empty"
+	}
+	return ""
+}
 
 // concurrentFirstUse: at process start, before anything was tokenized, several goroutines - each with instances of its
 // own - tokenize every registered multi-character symbol for the first time (lazily filled caches shared between
@@ -294,7 +353,12 @@ func runC19(in sx.SX) (sx.SX, string) {
 				}
 			}
 		}
-		c19Once.Do(func() { c19Isolation = probeIsolation() })
+		c19Once.Do(func() {
+			c19Isolation = probeIsolation()
+			if c19Isolation == "" {
+				c19Isolation = probeFunctionPurity()
+			}
+		})
 		if c19Isolation != "" && fail == "" {
 			fail = c19Isolation
 		}
